@@ -89,6 +89,9 @@ class Evaluator:
                 if l[0] in ("str", "int", "enum", "bool") and l[0] == r[0]:
                     eq = l[1] == r[1]
                     return ("bool", eq if op == "Eq" else not eq)
+                if l[0] in ("some", "none") and r[0] in ("some", "none"):
+                    eq = l == r
+                    return ("bool", eq if op == "Eq" else not eq)
                 raise Unrecognised(f"comparison of {l} and {r}")
             raise Unrecognised(f"operator {op}")
         if k == "if":
